@@ -1,6 +1,7 @@
 import CasModel.Index
 import CasModel.Keys
 import CasModel.Store
+import CasModel.Range
 /-
   Conc: small-step interleaving model of the concurrent protocol (src/index/manager.rs,
   src/transaction.rs, src/cas.rs, src/orphan.rs, src/cas_manager.rs).
@@ -24,6 +25,7 @@ inductive COp where
   | remove (k : Bytes)
   | removeRange (lo hi : Bound)
   | get (k : Bytes)
+  | getRange (k : Bytes) (s e : Nat)         -- get_range: size pre-check, then lookup + open + slice
   | checkpoint
   | cleanup (hs : List Bytes)               -- delete_orphans over a previously scanned list
   deriving Repr
@@ -60,6 +62,7 @@ inductive Pc where
   | rmScan (k : Bytes)                                 -- remove.before_scan
   | rrScan (lo hi : Bound)                             -- remove_range.before_scan
   | rdLookup (k : Bytes)                               -- read.before_lookup
+  | rdLookupR (k : Bytes) (s e : Nat)                  -- read.before_lookup of a get_range (pre-check passed)
   | rdOpened (r : Res)                                 -- read.after_open (fd held, guard released)
   | orIntents (hs : List Bytes) (del skip : Nat)       -- orphan.before_intents
   | orState (h : Bytes) (hs : List Bytes) (del skip : Nat)    -- orphan.before_state            [intents]
@@ -112,7 +115,7 @@ def bkSet (m : List (Bytes × Bytes)) (k h : Bytes) : List (Bytes × Bytes) := c
 def Pc.wants : Pc → Nat
   | .putReg .. | .apIntents .. | .orIntents .. => 1
   | .apState .. | .ckState .. => 2
-  | .rmScan .. | .rrScan .. | .rdLookup .. | .orState .. => 3
+  | .rmScan .. | .rrScan .. | .rdLookup .. | .rdLookupR .. | .orState .. => 3
   | _ => 0
 
 def enabled (sh : Shared) (pc : Pc) : Bool :=
@@ -158,17 +161,27 @@ def applyStep (sh : Shared) (op : Op Bytes) (own : Option (Bytes × Bytes)) (res
       ⟨{ sh2 with lockState := none, lockIntents := none }, .apUnlocked ⟨own, res, rolled⟩, none⟩
     else ⟨{ sh2 with lockState := none }, .apUnlink pending ⟨own, res, rolled⟩, none⟩
 
-/-- start the next operation of a thread (runs up to its first yield point; staging a blob
-    touches only the private staging file) -/
-def startOp (H : Bytes → Bytes) : COp → Pc
-  | .put k c => .putReg k c
-  | .abort _ _ => .idle
-  | .remove k => .rmScan k
-  | .removeRange lo hi => .rrScan lo hi
-  | .get k => .rdLookup k
-  | .checkpoint => .ckState ⟨none, .ok, false⟩
-  | .cleanup hs => .orIntents hs 0 0
+/-- start the next operation of a thread: runs up to its first yield point (staging a blob
+    touches only the private staging file); some operations finish before any yield point -/
+def startOp (H : Bytes → Bytes) (sh : Shared) : COp → Pc × Option Res
+  | .put k c => (.putReg k c, none)
+  | .abort _ _ => (.idle, some .ok)
+  | .remove k => (.rmScan k, none)
+  | .removeRange lo hi => (.rrScan lo hi, none)
+  | .get k => (.rdLookup k, none)
+  | .getRange k s e =>
+    -- `get_size` pre-check (its own short read-lock section, no yield point inside)
+    match kLookup sh.idx.map k with
+    | none => (.idle, some .absent)
+    | some item => if s ≥ item.size then (.idle, some (.found [])) else (.rdLookupR k s e, none)
+  | .checkpoint => (.ckState ⟨none, .ok, false⟩, none)
+  | .cleanup hs => (.orIntents hs 0 0, none)
 where _h := H
+
+/-- operations whose first action (before any yield point) takes the state lock -/
+def COp.startsWithStateRead : COp → Bool
+  | .getRange .. => true
+  | _ => false
 
 /-- one scheduling step of a thread parked at `pc` (must be `enabled`) -/
 def stepPc (H : Bytes → Bytes) (tid : Tid) (sh : Shared) : Pc → StepOut
@@ -208,6 +221,17 @@ def stepPc (H : Bytes → Bytes) (tid : Tid) (sh : Shared) : Pc → StepOut
       match casGet sh.cas item.hash with
       | none => ⟨sh, .rdOpened .missing, none⟩
       | some c => ⟨sh, .rdOpened (.found c), none⟩
+  | .rdLookupR k s e =>
+    match kLookup sh.idx.map k with
+    | none => ⟨sh, .idle, some .absent⟩
+    | some item =>
+      match casGet sh.cas item.hash with
+      | none => ⟨sh, .rdOpened .missing, none⟩
+      | some c =>
+        -- the slice is cut from the blob that was opened, clamped with ITS recorded size
+        match getRange c item.size [] s e with
+        | .ok out => ⟨sh, .rdOpened (.found out.bytes), none⟩
+        | .error _ => ⟨sh, .rdOpened .panic, none⟩
   | .rdOpened r => ⟨sh, .idle, some r⟩
   | .orIntents hs del skip =>
     match hs with
@@ -238,13 +262,10 @@ def step (H : Bytes → Bytes) (s : Sys) (tid : Tid) : Option Sys :=
       match th.ops with
       | [] => none
       | op :: rest =>
-        match startOp H op with
-        | .idle =>
-          let th' : Thread := { th with ops := rest, results := th.results ++ [.ok] }
-          some { s with threads := s.threads.set tid th' }
-        | pc =>
-          let th' : Thread := { th with ops := rest, pc := pc }
-          some { s with threads := s.threads.set tid th' }
+        if op.startsWithStateRead && s.sh.lockState.isSome then none else
+        let st := startOp H s.sh op
+        let th' : Thread := { th with ops := rest, pc := st.1, results := th.results ++ st.2.toList }
+        some { s with threads := s.threads.set tid th' }
     | pc =>
       if !enabled s.sh pc then none else
       let o := stepPc H tid s.sh pc
